@@ -612,6 +612,20 @@ class State:
                 and st[-2].k == "tuple"
                 and self._callable(st[-3])
             )
+        if p.any_callee:
+            # loose typing (checks that need no reference VM): any value may be the target of a
+            # mutating opcode or of BUILD, as a static decompiler has to accept
+            if op == "BUILD":
+                return self._seg(2)
+            if op == "APPEND":
+                return self._seg(2)
+            if op == "SETITEM":
+                return self._seg(3)
+            if op in ("APPENDS", "SETITEMS", "ADDITEMS"):
+                if t is None:
+                    return False
+                mi = len(st) - 1 - t
+                return mi >= 1 and st[mi - 1].k != "mark"
         if op == "BUILD":
             return self._seg(2) and st[-2].k in p.build_on
         if op == "APPEND":
